@@ -49,10 +49,10 @@ impl Scenario for C10S {
     }
     fn count(&self, tier: Tier, variant: &str) -> u64 {
         match (tier, variant) {
-            (Tier::Quick, "os") => 20000,
-            (Tier::Quick, _) => 6000,
-            (Tier::Thorough, "os") => 1_000_000,
-            (Tier::Thorough, _) => 300_000,
+            (Tier::Quick, "os") => 80_000,
+            (Tier::Quick, _) => 25_000,
+            (Tier::Thorough, "os") => 3_000_000,
+            (Tier::Thorough, _) => 800_000,
         }
     }
     fn rule(&self) -> &'static str {
